@@ -94,7 +94,6 @@ def to_coq(c):
     if ansloc is None or ansloc < 0:
         ansloc = 0
     fields = [
-        cbool(c["backend"] in ("v1", "v2")),
         cbool(c.get("hit", False)),
         cbool(c.get("inzone", False)),
         cid(c["map8"]), cid(c["mapm"]),
